@@ -33,7 +33,17 @@ P = {
  "C18": ("fault_enumeration","per generated tree: SIGTERM and SIGINT delivered at every counted operation boundary (LD_PRELOAD), clean-stop oracle","5 C18",
          "Signal enumeration over all operation boundaries per generated tree and mode; trees sampled."),
 }
-NOT_YET = {"C04":"check not built yet (in progress)","C09":"check not built yet (in progress)","C15":"check not built yet (in progress)","C16":"check not built yet (in progress)"}
+NOT_YET = {}
+P.update({
+ "C04": ("exploration","PBT over trees x configurations x lock states x broken set-ups x fault plans; strict sandbox snapshot + no-mutating-call-in-trace oracle","5 C04",
+         "Exploration of generated trees/configurations incl. failing and interrupted runs; two independent oracles (snapshot with mtime/inode, libc-level call trace)."),
+ "C09": ("translation_validation","generated programs edited by Breadlog; original and edited body compiled with rustc against log(kv) and executed; record sequences compared","5 C09",
+         "Translation validation of generated programs: both versions are compiled and run, the emitted log records are compared field by field."),
+ "C15": ("exploration","PBT over directory layouts / extension lists / path forms / invocation directories against an independent scope rule","5 C15",
+         "Exploration of generated layouts with a canary statement in every regular file; independent scope model as the oracle."),
+ "C16": ("exploration","complete enumeration of the configuration matrix (switch values x lock states x modes x error points) against a reference model of the guide, with differential lock-absent baselines","5 C16",
+         "Every point of the stated configuration matrix is visited (thorough: 20 tree variants per point); oracle is a reference model of the documented semantics plus differential baselines."),
+})
 checks=[]
 for pid,(cat,tech,ref,text) in sorted(P.items()):
     checks.append({
